@@ -516,3 +516,298 @@ Proof. exists s12_file, 4, 20%nat. vm_compute. repeat split; discriminate. Qed.
 Example pages_fixed_s12 :
   concat (map pg_content (page_walk read_range 20 s12_file 0 4)) = s12_file.
 Proof. vm_compute. reflexivity. Qed.
+
+(* ================= UTF-8: prefixes of valid text, character boundaries ================= *)
+Fixpoint steps_ok (st : ust) (bs : bytes) : bool :=
+  match bs with
+  | [] => true
+  | b :: r => let '(_, ok, st') := ustep st b in ok && steps_ok st' r
+  end.
+
+Definition is_idle (st : ust) : bool := match st with UIdle => true | _ => false end.
+
+Lemma urun_ok bs : forall st, snd (urun st bs) = steps_ok st bs && is_idle (ufinal st bs).
+Proof.
+  induction bs as [|b r IH]; intros st; cbn [urun steps_ok ufinal].
+  - destruct st; reflexivity.
+  - destruct (ustep st b) as [[o ok] st'] eqn:E. specialize (IH st').
+    destruct (urun st' r) as [o2 ok2]. cbn [snd] in *. rewrite IH. apply andb_assoc.
+Qed.
+
+Lemma ufinal_app a : forall st b, ufinal st (a ++ b) = ufinal (ufinal st a) b.
+Proof.
+  induction a as [|x a IH]; intros st b; cbn [app ufinal]; [reflexivity|].
+  destruct (ustep st x) as [[o ok] st']. apply IH.
+Qed.
+
+Lemma steps_ok_app a : forall st b, steps_ok st (a ++ b) = steps_ok st a && steps_ok (ufinal st a) b.
+Proof.
+  induction a as [|x a IH]; intros st b; cbn [app steps_ok ufinal]; [reflexivity|].
+  destruct (ustep st x) as [[o ok] st']. rewrite IH. apply andb_assoc.
+Qed.
+
+Lemma ustart_pend b o ok acc n lo hi :
+  ustart b = (o, ok, UPend acc n lo hi) -> acc = [b] /\ 1 <= n /\ n <= 3.
+Proof.
+  unfold ustart. repeat (match goal with |- context [if ?c then _ else _] => destruct c end);
+  intros E; inversion E; subst; repeat split; lia.
+Qed.
+
+Lemma ok_prefix_decomp bs : steps_ok UIdle bs = true ->
+  exists pre, bs = pre ++ pend_acc (ufinal UIdle bs)
+              /\ steps_ok UIdle pre = true /\ ufinal UIdle pre = UIdle.
+Proof.
+  induction bs as [|b bs IH] using rev_ind; intros Hok.
+  - exists []. repeat split.
+  - rewrite steps_ok_app in Hok. apply andb_true_iff in Hok as [Hok1 Hok2].
+    destruct (IH Hok1) as (pre & Hbs & Hpre & Hfin). rewrite ufinal_app.
+    cbn [steps_ok ufinal] in *.
+    destruct (ustep (ufinal UIdle bs) b) as [[o ok] st'] eqn:E.
+    rewrite andb_true_r in Hok2. subst ok.
+    assert (Hwhole : steps_ok UIdle (bs ++ [b]) = true /\ ufinal UIdle (bs ++ [b]) = st').
+    { rewrite steps_ok_app, ufinal_app, Hok1. cbn [steps_ok ufinal]. rewrite E. split; reflexivity. }
+    destruct Hwhole as [Hw1 Hw2].
+    destruct st' as [|acc' n' lo' hi'].
+    + exists (bs ++ [b]). cbn [pend_acc]. rewrite app_nil_r. repeat split; assumption.
+    + exists pre. split; [|split; assumption]. cbn [pend_acc].
+      destruct (ufinal UIdle bs) as [|acc need lo hi] eqn:Est; cbn [ustep pend_acc] in *.
+      * apply ustart_pend in E as [-> _]. rewrite app_nil_r in Hbs. subst pre. reflexivity.
+      * destruct (inr lo hi b).
+        -- destruct (need =? 1); inversion E; subst. rewrite <- app_assoc. reflexivity.
+        -- destruct (ustart b) as [[o' ok'] st'']. inversion E.
+Qed.
+
+Definition ust_wf (st : ust) : Prop :=
+  match st with UIdle => True | UPend acc need _ _ => nlen acc + need <= 4 /\ 1 <= need /\ 1 <= nlen acc end.
+
+Lemma ustep_wf st b : ust_wf st -> ust_wf (snd (ustep st b)).
+Proof.
+  assert (Hs : forall b, ust_wf (snd (ustart b))).
+  { intros x. destruct (ustart x) as [[o ok] st'] eqn:E. cbn [snd]. destruct st'; [exact I|].
+    apply ustart_pend in E as (-> & H1 & H2). cbn. lia. }
+  destruct st as [|acc need lo hi]; intros Hw; cbn [ustep].
+  - apply Hs.
+  - destruct (inr lo hi b).
+    + destruct (N.eqb_spec need 1); cbn [snd]; [exact I|]. cbn in *. rewrite nlen_app. cbn. lia.
+    + specialize (Hs b). destruct (ustart b) as [[o ok] st']. exact Hs.
+Qed.
+
+Lemma ufinal_wf bs : forall st, ust_wf st -> ust_wf (ufinal st bs).
+Proof.
+  induction bs as [|b r IH]; intros st Hw; cbn [ufinal]; [exact Hw|].
+  pose proof (ustep_wf st b Hw) as H. destruct (ustep st b) as [[o ok] st']. apply IH, H.
+Qed.
+
+Lemma incomplete_tail_le3 bs : incomplete_tail bs <= 3.
+Proof.
+  unfold incomplete_tail. pose proof (ufinal_wf bs UIdle I) as H.
+  destruct (ufinal UIdle bs); [lia|]. cbn in H. lia.
+Qed.
+
+(* a prefix of valid text, with its incomplete last character removed, is valid text *)
+Lemma valid_prefix_trim buf rest :
+  steps_ok UIdle (buf ++ rest) = true ->
+  let pre := take (nlen buf - incomplete_tail buf) buf in
+  utf8_ok pre = true /\ ufinal UIdle pre = UIdle
+  /\ buf = pre ++ pend_acc (ufinal UIdle buf) /\ nlen pre = nlen buf - incomplete_tail buf.
+Proof.
+  intros Hok. rewrite steps_ok_app in Hok. apply andb_true_iff in Hok as [Hok _].
+  destruct (ok_prefix_decomp buf Hok) as (pre & Hbuf & Hpre & Hfin).
+  assert (Ht : incomplete_tail buf = nlen (pend_acc (ufinal UIdle buf))).
+  { unfold incomplete_tail. destruct (ufinal UIdle buf); reflexivity. }
+  cbv zeta. rewrite Ht.
+  remember (pend_acc (ufinal UIdle buf)) as acc eqn:Eacc.
+  assert (Hpre' : take (nlen buf - nlen acc) buf = pre).
+  { rewrite Hbuf. rewrite nlen_app. replace (nlen pre + nlen acc - nlen acc) with (nlen pre) by lia.
+    rewrite take_app, N.sub_diag, take_0, app_nil_r. apply take_all. lia. }
+  rewrite Hpre'. split; [|split; [exact Hfin|split; [exact Hbuf|]]].
+  - unfold utf8_ok. rewrite urun_ok, Hpre, Hfin. reflexivity.
+  - rewrite Hbuf at 1. rewrite nlen_app. lia.
+Qed.
+
+(* S19 repaired: the shell preview of valid UTF-8 output is exactly a byte prefix of it *)
+Theorem shell_preview_exact : forall (pmax : N) (out : bytes),
+  utf8_ok out = true ->
+  let pv := shell_preview (take pmax out) (pmax <? nlen out) in
+  lossy pv = pv /\ exists rest, out = pv ++ rest.
+Proof.
+  intros pmax out Hv pv. subst pv. unfold shell_preview.
+  unfold utf8_ok in Hv. rewrite urun_ok in Hv. apply andb_true_iff in Hv as [Hs Hi].
+  destruct (N.ltb_spec pmax (nlen out)) as [Hlt|Hge].
+  - rewrite <- (take_drop pmax out) in Hs.
+    destruct (valid_prefix_trim _ _ Hs) as (Hok & _ & Hbuf & _).
+    split; [apply lossy_valid, Hok|].
+    eexists. rewrite <- (take_drop pmax out) at 1. rewrite Hbuf at 1. rewrite <- app_assoc. reflexivity.
+  - rewrite take_all by exact Hge. split; [|exists []; rewrite app_nil_r; reflexivity].
+    apply lossy_valid. unfold utf8_ok. rewrite urun_ok, Hs, Hi. reflexivity.
+Qed.
+
+(* ================= pages ================= *)
+Lemma skipn_skipn_add {A} m : forall n (l : list A), skipn n (skipn m l) = skipn (m + n) l.
+Proof.
+  induction m as [|m IH]; intros n l; [reflexivity|].
+  destruct l as [|x l]; cbn [skipn Nat.add]; [destruct n; reflexivity|apply IH].
+Qed.
+
+Lemma drop_drop n m (l : bytes) : drop n (drop m l) = drop (m + n) l.
+Proof. unfold drop. rewrite skipn_skipn_add. f_equal. lia. Qed.
+
+Lemma firstn_add_nat {A} a : forall b (l : list A),
+  firstn (a + b) l = firstn a l ++ firstn b (skipn a l).
+Proof.
+  induction a as [|a IH]; intros b l; [reflexivity|].
+  destruct l as [|x l]; cbn [Nat.add firstn skipn app].
+  - rewrite firstn_nil. reflexivity.
+  - f_equal. apply IH.
+Qed.
+
+Lemma take_add n m (l : bytes) : take (n + m) l = take n l ++ take m (drop n l).
+Proof.
+  unfold take, drop. rewrite <- firstn_add_nat. f_equal. lia.
+Qed.
+
+Lemma take_self_len n (l : bytes) : take (nlen (take n l)) l = take n l.
+Proof. rewrite nlen_take, N.min_comm. apply take_min'. Qed.
+
+(* what one page is, for every file: the bytes [offset, offset + pg_bytes) decoded, never more than
+   max_bytes, `truncated` iff more bytes follow *)
+Lemma read_range_page file off maxb :
+  let buf := take maxb (drop off file) in
+  let more := off + nlen buf <? nlen file in
+  let p := read_range file off maxb in
+  pg_content p = lossy (trim_page buf more) /\ pg_bytes p = nlen (trim_page buf more)
+  /\ pg_trunc p = more /\ pg_total p = nlen file /\ pg_bytes p <= maxb
+  /\ trim_page buf more = take (pg_bytes p) (drop off file).
+Proof.
+  intros buf more p. subst p. unfold read_range. fold buf. fold more.
+  assert (Hle : nlen (trim_page buf more) <= nlen buf).
+  { unfold trim_page. destruct more; [|lia]. destruct (incomplete_tail buf <? nlen buf); [|lia].
+    rewrite nlen_take. lia. }
+  assert (Hb : nlen buf <= maxb) by (subst buf; rewrite nlen_take; lia).
+  assert (Htr : truncate_utf8 (trim_page buf more) maxb
+                = (lossy (trim_page buf more), false, nlen (trim_page buf more))).
+  { unfold truncate_utf8. destruct (N.leb_spec (nlen (trim_page buf more)) maxb); [reflexivity|lia]. }
+  rewrite Htr. cbn [pg_content pg_bytes pg_trunc pg_total orb].
+  repeat (split; [reflexivity || lia|]).
+  unfold trim_page. clear Hle Htr Hb. destruct more.
+  - destruct (incomplete_tail buf <? nlen buf).
+    + generalize (nlen buf - incomplete_tail buf). intros k. unfold buf.
+      rewrite take_take, take_self_len. reflexivity.
+    + unfold buf. symmetry. apply take_self_len.
+  - unfold buf. symmetry. apply take_self_len.
+Qed.
+
+(* pages make progress whenever more bytes follow (max_bytes >= 1) *)
+Lemma read_range_progress file off maxb :
+  1 <= maxb -> pg_trunc (read_range file off maxb) = true -> 1 <= pg_bytes (read_range file off maxb).
+Proof.
+  intros Hm. destruct (read_range_page file off maxb) as (_ & Hb & Ht & _).
+  rewrite Hb, Ht. clear Hb Ht. intros Hmore. rewrite Hmore.
+  apply N.ltb_lt in Hmore. rewrite nlen_take, nlen_drop in Hmore.
+  unfold trim_page. set (buf := take maxb (drop off file)).
+  assert (Hbuf : 1 <= nlen buf) by (subst buf; rewrite nlen_take, nlen_drop; lia).
+  destruct (N.ltb_spec (incomplete_tail buf) (nlen buf)); [rewrite nlen_take|]; lia.
+Qed.
+
+(* the page walk tiles the file, for EVERY file (binary included) and every max_bytes >= 1 *)
+Lemma page_walk_tiles file maxb : 1 <= maxb -> forall fuel off,
+  off <= nlen file -> nlen file - off < N.of_nat fuel ->
+  let ps := page_walk read_range fuel file off maxb in
+  sumN (map pg_bytes ps) = nlen file - off.
+Proof.
+  intros Hm. induction fuel as [|f IH]; intros off Hoff Hfuel; [lia|].
+  cbn [page_walk].
+  pose proof (read_range_page file off maxb) as (_ & Hb & Ht & _ & Hle & _).
+  pose proof (read_range_progress file off maxb Hm) as Hprog.
+  set (p := read_range file off maxb) in *.
+  destruct (pg_trunc p) eqn:Etr; cbn [andb].
+  - specialize (Hprog eq_refl). destruct (N.ltb_spec 0 (pg_bytes p)) as [_|Hc]; [|lia].
+    symmetry in Ht. apply N.ltb_lt in Ht. rewrite nlen_take, nlen_drop in Ht.
+    assert (Hpb : pg_bytes p <= nlen file - off).
+    { rewrite Hb. unfold trim_page. rewrite (proj2 (N.ltb_lt _ _)) by (rewrite nlen_take, nlen_drop; lia).
+      set (buf := take maxb (drop off file)).
+      assert (nlen buf <= nlen file - off) by (subst buf; rewrite nlen_take, nlen_drop; lia).
+      destruct (incomplete_tail buf <? nlen buf); [rewrite nlen_take|]; lia. }
+    cbn [map sumN]. rewrite IH by lia. lia.
+  - cbn [map sumN]. symmetry in Ht. apply N.ltb_ge in Ht. rewrite nlen_take, nlen_drop in Ht.
+    rewrite Hb. unfold trim_page. rewrite (proj2 (N.ltb_ge _ _)) by (rewrite nlen_take, nlen_drop; lia).
+    rewrite nlen_take, nlen_drop. lia.
+Qed.
+
+(* valid UTF-8 log, pages of at least 4 bytes (the widest character), started on a character boundary:
+   the page texts concatenate to the stored text exactly *)
+Lemma page_walk_text file maxb : utf8_ok file = true -> 4 <= maxb -> forall fuel off,
+  off <= nlen file -> ufinal UIdle (take off file) = UIdle -> nlen file - off < N.of_nat fuel ->
+  concat (map pg_content (page_walk read_range fuel file off maxb)) = drop off file.
+Proof.
+  intros Hv Hm. unfold utf8_ok in Hv. rewrite urun_ok in Hv. apply andb_true_iff in Hv as [Hs Hi].
+  induction fuel as [|f IH]; intros off Hoff Hbd Hfuel; [lia|].
+  cbn [page_walk].
+  pose proof (read_range_page file off maxb) as (Hc & Hb & Ht & _ & _ & Hrange).
+  set (p := read_range file off maxb) in *.
+  (* the rest of the file from a boundary is valid text *)
+  assert (Hrest : steps_ok UIdle (drop off file) = true /\ is_idle (ufinal UIdle (drop off file)) = true).
+  { rewrite <- (take_drop off file) in Hs, Hi. rewrite steps_ok_app, Hbd in Hs. rewrite ufinal_app, Hbd in Hi.
+    apply andb_true_iff in Hs as [_ Hs]. split; assumption. }
+  destruct Hrest as [Hrs Hri].
+  set (buf := take maxb (drop off file)) in *.
+  assert (Hsplit : drop off file = buf ++ drop maxb (drop off file)) by (subst buf; symmetry; apply take_drop).
+  destruct (pg_trunc p) eqn:Etr; cbn [andb].
+  - (* more bytes follow: the page is buf without its incomplete last character *)
+    symmetry in Ht. pose proof Ht as Hmore. apply N.ltb_lt in Hmore.
+    assert (Hnb : nlen buf = maxb) by (subst buf; rewrite nlen_take, nlen_drop in *; lia).
+    pose proof (incomplete_tail_le3 buf) as H3.
+    rewrite Hsplit in Hrs.
+    destruct (valid_prefix_trim buf _ Hrs) as (Hok & Hfin & Hbuf & Hnpre).
+    set (pre := take (nlen buf - incomplete_tail buf) buf) in *.
+    assert (Htrim : trim_page buf true = pre).
+    { unfold trim_page. rewrite (proj2 (N.ltb_lt _ _)) by lia. reflexivity. }
+    rewrite Ht, Htrim in Hc, Hb, Hrange.
+    assert (Hpb : 1 <= pg_bytes p) by (rewrite Hb, Hnpre; lia).
+    destruct (N.ltb_spec 0 (pg_bytes p)) as [_|Hcn]; [|lia].
+    cbn [map concat]. rewrite Hc, (lossy_valid pre Hok).
+    assert (Hpre_le : nlen pre <= nlen file - off).
+    { rewrite Hnpre. lia. }
+    rewrite IH.
+    + rewrite Hb. rewrite <- drop_drop. rewrite <- (take_drop (nlen pre) (drop off file)) at 2.
+      f_equal. rewrite <- Hb. exact Hrange.
+    + lia.
+    + rewrite Hb, take_add, ufinal_app, Hbd. rewrite <- Hb, <- Hrange. exact Hfin.
+    + lia.
+  - (* last page: everything that is left *)
+    symmetry in Ht. pose proof Ht as Hmore. apply N.ltb_ge in Hmore.
+    assert (Hall : buf = drop off file).
+    { subst buf. apply take_all. rewrite nlen_take, nlen_drop in Hmore. rewrite nlen_drop. lia. }
+    rewrite Ht in Hc. unfold trim_page in Hc. rewrite Hall in Hc.
+    cbn [map concat]. rewrite Hc, app_nil_r. apply lossy_valid.
+    unfold utf8_ok. rewrite urun_ok, Hrs, Hri. reflexivity.
+Qed.
+
+Theorem pages_reassemble : forall (file : bytes) (maxb : N) (fuel : nat),
+  utf8_ok file = true -> 4 <= maxb -> nlen file < N.of_nat fuel ->
+  let ps := page_walk read_range fuel file 0 maxb in
+  concat (map pg_content ps) = file /\ sumN (map pg_bytes ps) = nlen file.
+Proof.
+  intros file maxb fuel Hv Hm Hf ps. subst ps. split.
+  - rewrite (page_walk_text file maxb Hv Hm fuel 0); [reflexivity|lia|reflexivity|lia].
+  - rewrite (page_walk_tiles file maxb ltac:(lia) fuel 0); lia.
+Qed.
+
+Theorem pages_tile_any_file : forall (file : bytes) (maxb : N) (fuel : nat),
+  1 <= maxb -> nlen file < N.of_nat fuel ->
+  sumN (map pg_bytes (page_walk read_range fuel file 0 maxb)) = nlen file.
+Proof.
+  intros file maxb fuel Hm Hf. rewrite (page_walk_tiles file maxb Hm fuel 0); lia.
+Qed.
+
+(* non-vacuity: the S12 witness meets the hypotheses of pages_reassemble, and its page boundary at
+   offset 4 falls inside the second character *)
+Lemma pages_hyp_example :
+  utf8_ok s12_file = true /\ 4 <= 4 /\ nlen s12_file < N.of_nat 20
+  /\ map pg_bytes (page_walk read_range 20 s12_file 0 4) = [3; 4].
+Proof. vm_compute. repeat split; try reflexivity; discriminate. Qed.
+
+Definition s19_out : bytes := [195; 169; 195; 169; 195; 169].
+Lemma shell_preview_example :
+  utf8_ok s19_out = true /\ shell_preview (take 3 s19_out) (3 <? nlen s19_out) = [195; 169].
+Proof. vm_compute. split; reflexivity. Qed.
